@@ -392,6 +392,156 @@ func ruleGate(c *Ctx) {
 		}
 	}
 
+	// whole-text validation: an exported function that takes a JSON text reports success only
+	// for a text that was validated as a whole — by a gate of its own (obligations above), or by a
+	// callee that owns one (or by a codec entry point that runs checkValid over the whole
+	// parameter) whose success every accepting return depends on. A streaming decoder stops
+	// after the first value, so trailing garbage would be accepted.
+	{
+		initM := b.method(b.Codec, "decodeState", "init")
+		validatingCodec := map[*ssa.Function]int{}
+		if vf := fnOf(b.Codec, "Valid"); vf != nil {
+			validatingCodec[vf] = 0
+		}
+		for _, fn := range b.exportedAPI(b.Codec) {
+			for pi, p := range fn.Params {
+				if !isByteSlice(p.Type()) || initM == nil {
+					continue
+				}
+				if _, isSink := sinks[fn]; isSink {
+					continue
+				}
+				for _, ci := range callsTo(fn, func(c *ssa.CallCommon) bool { return c.StaticCallee() == initM }) {
+					if args := ci.Common().Args; len(args) >= 2 && unwrapConv(args[1]) == ssa.Value(p) {
+						validatingCodec[fn] = pi
+					}
+				}
+			}
+		}
+		validates := map[*ssa.Function]map[int]string{}
+		set := func(f *ssa.Function, i int, why string) bool {
+			if validates[f] == nil {
+				validates[f] = map[int]string{}
+			}
+			if _, ok := validates[f][i]; ok {
+				return false
+			}
+			validates[f][i] = why
+			return true
+		}
+		for _, fn := range libFuncs {
+			for pi, p := range fn.Params {
+				if isByteSlice(p.Type()) && len(b.validGates(fn, p)) > 0 {
+					set(fn, pi, "own gate")
+				}
+			}
+		}
+		accepting := func(fn *ssa.Function) []*ssa.Return {
+			var out []*ssa.Return
+			res := fn.Signature.Results()
+			for _, r := range liveReturns(fn) {
+				if res.Len() == 0 {
+					continue
+				}
+				last := retVal(r, res.Len()-1)
+				if isErrorType(res.At(res.Len()-1).Type()) {
+					if b.definitelyNonNilErr(last, r.Block(), 0) {
+						continue
+					}
+				} else if bt, ok := res.At(res.Len()-1).Type().Underlying().(*types.Basic); ok && bt.Kind() == types.Bool {
+					if k, isK := boolConst(last); isK && !k {
+						continue
+					}
+				}
+				out = append(out, r)
+			}
+			return out
+		}
+		delegates := func(r *ssa.Return, call *ssa.Call) bool {
+			for _, v := range r.Results {
+				if v == ssa.Value(call) {
+					return true
+				}
+				if ex, ok := v.(*ssa.Extract); ok && ex.Tuple == ssa.Value(call) {
+					return true
+				}
+			}
+			return false
+		}
+		for changed := true; changed; {
+			changed = false
+			for _, fn := range libFuncs {
+				for pi, p := range fn.Params {
+					if !isByteSlice(p.Type()) {
+						continue
+					}
+					if _, done := validates[fn][pi]; done {
+						continue
+					}
+					allInstrs(fn, func(i ssa.Instruction) {
+						call, ok := i.(*ssa.Call)
+						if !ok {
+							return
+						}
+						g := call.Call.StaticCallee()
+						if g == nil {
+							return
+						}
+						for ai, a := range call.Call.Args {
+							if unwrapConv(a) != ssa.Value(p) {
+								continue
+							}
+							okCallee := false
+							if _, ok := validates[g][ai]; ok {
+								okCallee = true
+							}
+							if j, ok := validatingCodec[g]; ok && j == ai {
+								okCallee = true
+							}
+							if !okCallee {
+								continue
+							}
+							all := true
+							for _, r := range accepting(fn) {
+								if delegates(r, call) {
+									continue
+								}
+								if ok, _ := b.successDominates(call, r); ok {
+									continue
+								}
+								all = false
+							}
+							if all && set(fn, pi, "every accepting return depends on the success of "+fname(g)+" at "+b.posOf(call)) {
+								changed = true
+							}
+						}
+					})
+				}
+			}
+		}
+		for _, fn := range b.exportedAPI(b.Lib) {
+			for pi, p := range fn.Params {
+				if !isByteSlice(p.Type()) {
+					continue
+				}
+				if recv := fn.Signature.Recv(); recv != nil && pi == 0 {
+					continue
+				}
+				if len(b.validGates(fn, p)) > 0 {
+					continue // decided by the accepting-return obligations of the gate's owner
+				}
+				key := fmt.Sprintf("%s param %s: success is reported only for a text validated as a whole", fname(fn), p.Name())
+				if why, ok := validates[fn][pi]; ok {
+					l.add("R-GATE", "v5", key, b.rel(fn.Pos()), Discharged, why, true)
+				} else if len(accepting(fn)) == 0 {
+					l.add("R-GATE", "v5", key, b.rel(fn.Pos()), Discharged, "the function never reports success", false)
+				} else {
+					l.add("R-GATE", "v5", key, b.rel(fn.Pos()), Violated, "no json.Valid gate on "+p.Name()+" here, and no accepting return depends on a callee that validates the whole text: a decoder that stops after the first value (or none at all) lets a text with trailing bytes through", true)
+				}
+			}
+		}
+	}
+
 	// text the library produces itself and keeps for a later validity-assuming parse: the
 	// encoder's output is well-formed, but it can nest deeper than the scanner accepts
 	// (a value of admissible depth inserted deep inside a document of admissible depth), and
